@@ -27,6 +27,7 @@ import (
 	"fmt"
 	"sort"
 	"strings"
+	"sync"
 	"sync/atomic"
 	"testing"
 	"testing/synctest"
@@ -192,6 +193,7 @@ func c16e3Scenario(v c16e3Variant, suppress map[string]bool) func() *sched.Scena
 			ev("probe%d waiting", p)
 		}
 
+		var retMu sync.Mutex
 		starting := map[int]*c16e3Path{} // thread -> path whose Probe this thread has called and that has not been seen waiting
 		step := func(thread int, name string) func() {
 			pn := func(prefix string) *c16e3Path { return paths[int(name[len(prefix)]-'0')] }
@@ -208,10 +210,12 @@ func c16e3Scenario(v c16e3Variant, suppress map[string]bool) func() *sched.Scena
 					st.probeInFlight.Add(1)
 					_ = st.path.Probe(ctx) // the return value is not judged (see the note on select above)
 					st.probeInFlight.Add(-1)
+					retMu.Lock() // several Probe calls can return at the same moment (woken by one event)
 					if starting[thread] == st {
 						st.probeStarting--
 						delete(starting, thread)
 					}
+					retMu.Unlock()
 				}
 			case strings.HasPrefix(name, "close"):
 				st := pn("close")
